@@ -95,12 +95,28 @@ func discharge(file string, timeoutS int, race bool) (status, solver string, t f
 func dischargeWith(solvers []solverSpec, file string, timeoutS int, race bool) (status, solver string, t float64, all []SolverResult, disagree bool) {
 	ctx, cancel := context.WithCancel(context.Background())
 	defer cancel()
-	ch := make(chan SolverResult, len(solvers))
+	// In a race, the other seeds join after a short head start when nobody has answered yet (most obligations are
+	// decided within a fraction of a second and never need them).
+	var late []solverSpec
+	if race && len(solvers) < len(retrySolvers) && timeoutS > lateStartS {
+		late = retrySolvers[len(solvers):]
+	}
+	ch := make(chan SolverResult, len(solvers)+len(late))
 	for _, s := range solvers {
 		go func(s solverSpec) { ch <- runSolver(ctx, s, file, timeoutS) }(s)
 	}
+	for _, s := range late {
+		go func(s solverSpec) {
+			select {
+			case <-ctx.Done():
+				ch <- SolverResult{Solver: s.name, Status: "unknown", Output: "not started: decided before its turn"}
+			case <-time.After(lateStartS * time.Second):
+				ch <- runSolver(ctx, s, file, timeoutS-lateStartS)
+			}
+		}(s)
+	}
 	var definitive *SolverResult
-	for range solvers {
+	for i := 0; i < len(solvers)+len(late); i++ {
 		r := <-ch
 		all = append(all, r)
 		if r.Status == "unsat" || r.Status == "sat" {
@@ -136,6 +152,8 @@ func dischargeWith(solvers []solverSpec, file string, timeoutS int, race bool) (
 	}
 	return st, "", 0, all, false
 }
+
+const lateStartS = 2
 
 type DischargeOpts struct {
 	OutDir   string
